@@ -115,24 +115,28 @@ func (c *WhipClient) Kick(id string, user *string, message string) error {
 }
 
 func (c *WhipClient) Close() error {
+	// do not call into the group with c.mu held: the group calls
+	// c.Permissions, which takes c.mu, with its own mutex held
 	c.mu.Lock()
-	defer c.mu.Unlock()
 	g := c.group
+	connection := c.connection
+	c.connection = nil
+	c.mu.Unlock()
 	if g == nil {
 		return nil
 	}
-	if c.connection != nil {
-		id := c.connection.Id()
-		c.connection.pc.OnICEConnectionStateChange(nil)
-		c.connection.pc.Close()
-		c.connection = nil
+	if connection != nil {
+		id := connection.Id()
+		connection.pc.OnICEConnectionStateChange(nil)
+		connection.pc.Close()
 		for _, c := range g.GetClients(c) {
 			c.PushConn(g, id, nil, nil, "")
 		}
-		c.connection = nil
 	}
 	group.DelClient(c)
+	c.mu.Lock()
 	c.group = nil
+	c.mu.Unlock()
 	return nil
 }
 
